@@ -1987,6 +1987,14 @@ class FileIterator(FileStorageFormatter):
                 # If buf is empty, we've reached EOF.
                 if not err.buf:
                     break
+                if pos + len(err.buf) >= self._file_size:
+                    # A header cut short at the end of the file: the
+                    # last write of a process that died (the file was
+                    # opened read-only, or it would have been removed).
+                    logger.warning("%s truncated, possibly due to"
+                                   " damaged records at %s",
+                                   self._file.name, pos)
+                    break
                 raise
 
             if h.tid <= self._ltid:
